@@ -3,7 +3,7 @@ _REAL = ['libxalan-c (rebuilt from /repo working tree, clang -O1 -DNDEBUG, ASan+
 PROP = dict(
     driver='c17', flavour='asan', level='exploration',
     technique='deterministic simulation: seeded visiting orders (history of numbered nodes) x simulated clock modes (LRU stamp of the match-pattern cache) x address-reuse allocator on one transformer; oracle = independent implementation of XSLT 1.0 section 7.7 in the driver + cross-history equality + format decoding',
-    level_text='Seeded exploration: a generated document (up to 150 elements, a quarter of the runs with > 50 distinct element names so the 50-entry pattern cache evicts) is numbered by 2-4 xsl:number parameter sets (level single/multiple/any; count absent, name, *, a|b, a[@k], *[@k]; from absent or a name; format token 1, 01, a, A, i, I) once in document order with an advancing clock and then in 2-4 other seeded visiting orders (random rank permutation, reverse, deepest-first) under clock modes advance/coarse/stall/-1/backward jump, all on the same transformer; then a second document on the same transformer vs a fresh one. Oracles: value per node equals the driver\ Further sets: format strings with a separator of their own between two tokens (ASCII punctuation or a character of the XML Extender class), and count=node() with xsl:strip-space over a document with white space between all tags, where the white-space-only text nodes of stripped elements must not be counted. Further sets: format strings with a separator of their own between two tokens (ASCII punctuation or a character of the XML Extender class), and count=node() with xsl:strip-space over a document with white space between all tags, where the white-space-only text nodes of stripped elements must not be counted.'s own section 7.7 computation where the Recommendation is unambiguous; value per node identical across histories and clock modes; formatted string decodes to the same list; no sanitizer report. One run in four uses prefixed names with subtrees re-binding the prefix (the oracle works on expanded names); a fifth of the instructions number the attribute k of every element that has one.',
+    level_text='Seeded exploration: a generated document (up to 150 elements, a quarter of the runs with > 50 distinct element names so the 50-entry pattern cache evicts) is numbered by 2-4 xsl:number parameter sets (level single/multiple/any; count absent, name, *, a|b, a[@k], *[@k]; from absent or a name; format token 1, 01, a, A, i, I) once in document order with an advancing clock and then in 2-4 other seeded visiting orders (random rank permutation, reverse, deepest-first) under clock modes advance/coarse/stall/-1/backward jump, all on the same transformer; then a second document on the same transformer vs a fresh one. Oracles: value per node equals the driver\'s own section 7.7 computation where the Recommendation is unambiguous; value per node identical across histories and clock modes; formatted string decodes to the same list; no sanitizer report. One run in four uses prefixed names with subtrees re-binding the prefix (the oracle works on expanded names); a fifth of the instructions number the attribute k of every element that has one. Further sets: format strings with a separator of their own between two tokens (ASCII punctuation or a character of the XML Extender class), and count=node() with xsl:strip-space over a document with white space between all tags, where the white-space-only text nodes of stripped elements must not be counted.',
     level_note='Scoped (DESIGN.md section 2): pattern shapes as listed; documents without namespaces; cases the Recommendation leaves open (current node matches from, no from match before/above the node, level=any counting zero nodes) are checked for history independence only. The in-library XPath evaluator is not trusted: the oracle walks the driver\'s own parse of the document.',
     design_ref='DESIGN.md section 7 (C17), 3.3',
     run_timeout=150,
